@@ -461,6 +461,23 @@ def r40(ctx: Ctx) -> RuleReport:
         rep.add(f'{fi.fq}: "invalid role" is recorded for the triple exactly when has_role fails', fi.loc(loop), 'ok' if good else 'undecided')
     else:
         rep.undecided(f'{fi.fq}: one role test per triple', fi.loc(loop), f'{len(tests)} has_role conditions in the loop')
+    # the per-source lists feed the reachability pass: a triple is filed there whatever the model says about its role
+    for n in ast.walk(loop):
+        if isinstance(n, ast.Call) and isinstance(n.func, ast.Attribute) and n.func.attr == 'append' and len(n.args) == 1 and tv and norm(n.args[0]) == tv:
+            recv = n.func.value
+            is_map = (isinstance(recv, ast.Subscript) and isinstance(recv.value, ast.Name)) or \
+                     (isinstance(recv, ast.Call) and isinstance(recv.func, ast.Attribute) and recv.func.attr == 'setdefault')
+            if not is_map or (isinstance(recv, ast.Subscript) and norm(recv.slice) == tv):
+                continue   # err[triple].append(...) is the report, not the adjacency
+            role_guard = sorted((c_, b_) for c_, b_ in facts_ex(ctx, fi, n) if 'has_role(' in c_)
+            key = f'{fi.fq}: `{norm(n)[:50]}` files every triple under its source, whatever its role'
+            if role_guard:
+                c_, b_ = role_guard[0]
+                rep.violation(key, fi.loc(n), f'the triple is only filed when `{c_}` is {b_}: the reachability pass then runs over a part of the graph, so a node whose '
+                              f'only link to the top carries {"an undefined" if b_ else "a defined"} role is reported "unreachable" although it is connected (and an unconnected node '
+                              f'whose triples all have such roles is not reported at all)')
+            else:
+                rep.ok(key, fi.loc(n))
     # the map tested by `graph.top not in <map>` is keyed by the sources of the triples only
     for n in walk_local(fi.node):
         if isinstance(n, ast.Compare) and len(n.ops) == 1 and isinstance(n.ops[0], (ast.In, ast.NotIn)) and norm(n.left) == f'{gp}.top' \
